@@ -13,6 +13,7 @@ import (
 	"context"
 	"crypto/aes"
 	"crypto/cipher"
+	"encoding/binary"
 	"encoding/json"
 	"fmt"
 	"io"
@@ -626,6 +627,147 @@ func cleanCase(w *mon.Worker, idx int, o cleanOpts) {
 	close(ss.release)
 }
 
+// concurrentCase: several goroutines send on one connection at the same time. The stream cipher
+// state carries across packets, so the frames must reach the socket in the order in which they
+// took key stream: the reference peer must read every frame as valid and receive exactly the
+// multiset of payloads that was sent (the order between goroutines is free, the order within one
+// goroutine is kept).
+func concurrentCase(w *mon.Worker, idx int) {
+	rng := w.Rng("concurrent", idx)
+	id := adnl.NewIdentity(rng.Bytes(32))
+	ip := caseIP()
+	ns, _ := nonceSource(rng.Fork("nonce", 0))
+	srv, ss, err := startServer(ip, id, ns, nil, true, false)
+	if err != nil {
+		w.HarnessError("listen: " + err.Error())
+		return
+	}
+	defer srv.Close()
+	pr := startProbe()
+	defer pr.Stop()
+	g, per := rng.Range(2, 8), rng.Range(20, 120)
+	wit := map[string]any{"case": idx, "section": "concurrent-senders", "goroutines": g, "packets_per_goroutine": per}
+	conn, err, pn := dial(id.Pub[:], srv.Addr())
+	if pn != nil {
+		wit["panic"] = pn.Value
+		w.Violation("panic@"+pn.Site+"/NewConnection", wit)
+		return
+	}
+	if err != nil {
+		if pr.Max() > 500*time.Millisecond {
+			w.Inconclusive("handshake failed on a stalled machine")
+			return
+		}
+		wit["client_error"] = err.Error()
+		w.Violation("handshake-failed@clean-stream", wit)
+		return
+	}
+	_ = collect(conn)
+	sent := make([][][]byte, g)
+	for i := range sent {
+		r := rng.Fork("sender", i)
+		for k := 0; k < per; k++ {
+			// at least 8 bytes: every payload carries (sender, sequence number), so the history is unambiguous
+			n := 8 + mon.Pick(r, []int{0, 1, 56, 57, 1000, 4096, 48 << 10, r.Intn(20000)})
+			pl := payload(r, n)
+			if len(pl) >= 8 { // tag with sender and sequence number
+				binary.LittleEndian.PutUint32(pl, uint32(i))
+				binary.LittleEndian.PutUint32(pl[4:], uint32(k))
+			}
+			sent[i] = append(sent[i], pl)
+		}
+	}
+	var wg sync.WaitGroup
+	var mu sync.Mutex
+	var firstErr error
+	var firstPanic *mon.Panic
+	for i := 0; i < g; i++ {
+		wg.Add(1)
+		go func(i int) {
+			defer wg.Done()
+			for _, pl := range sent[i] {
+				var e error
+				pn := mon.Guard(func() {
+					var pk liteclient.Packet
+					pk, e = liteclient.NewPacket(pl)
+					if e == nil {
+						e = conn.Send(pk)
+					}
+				})
+				mu.Lock()
+				if pn != nil && firstPanic == nil {
+					firstPanic = pn
+				}
+				if e != nil && firstErr == nil {
+					firstErr = e
+				}
+				mu.Unlock()
+				if pn != nil || e != nil {
+					return
+				}
+			}
+		}(i)
+	}
+	wg.Wait()
+	total := g * per
+	if firstPanic != nil {
+		wit["panic"], wit["stack"] = firstPanic.Value, firstPanic.Stack
+		w.Violation("panic@"+firstPanic.Site+"/Send(concurrent)", wit)
+		return
+	}
+	ok := firstErr == nil && ss.waitRecv(total, 20*time.Second)
+	ss.mu.Lock()
+	recv, rerr, pings := ss.recv, ss.recvErr, ss.pings
+	ss.mu.Unlock()
+	_ = pings
+	if pr.Max() > 500*time.Millisecond {
+		w.Inconclusive("concurrent-senders case on a stalled machine")
+		return
+	}
+	w.Eval(fmt.Sprintf("concurrent/%d/%d/%d", idx, g, per))
+	w.Count("concurrent_packets_sent", int64(total))
+	if rerr != nil && rerr != io.EOF {
+		wit["reference_error"], wit["frames_before"] = rerr.Error(), len(recv)
+		w.Violation("client-frame-rejected-by-reference/concurrent-senders/"+frameErrClass(rerr), wit)
+		return
+	}
+	if firstErr != nil {
+		wit["error"] = firstErr.Error()
+		w.Violation("send-error@clean-stream/concurrent-senders", wit)
+		return
+	}
+	if !ok {
+		wit["received"], wit["sent"] = len(recv), total
+		w.Violation("not-delivered@clean-stream/concurrent-senders", wit)
+		return
+	}
+	// exact multiset, per-sender order
+	next := make([]int, g)
+	for n, pl := range recv {
+		matched := false
+		if len(pl) >= 8 {
+			i, k := int(binary.LittleEndian.Uint32(pl)), int(binary.LittleEndian.Uint32(pl[4:]))
+			if i < g && k == next[i] && bytes.Equal(pl, sent[i][k]) {
+				next[i]++
+				matched = true
+			}
+		} else {
+			for i := 0; i < g && !matched; i++ {
+				if next[i] < per && bytes.Equal(pl, sent[i][next[i]]) {
+					next[i]++
+					matched = true
+				}
+			}
+		}
+		if !matched {
+			wit["index"], wit["got_len"], wit["got"] = n, len(pl), mon.HexTrunc(pl, 64)
+			w.Violation("payload-mismatch@client->server/concurrent-senders", wit)
+			return
+		}
+		w.Eval(fmt.Sprintf("c2s-conc/%d/%x", len(pl), head(pl)))
+	}
+}
+
 func head(b []byte) []byte {
 	if len(b) > 8 {
 		return b[:8]
@@ -1230,8 +1372,9 @@ func workers() map[string]func(*mon.Worker) {
 		"over": func(w *mon.Worker) {
 			runSpan(w, func(i int) { cleanCase(w, 2_000_000+i, cleanOpts{overLimit: 1 + i*977}) })
 		},
-		"faulty": func(w *mon.Worker) { runSpan(w, func(i int) { faultyCase(w, i) }) },
-		"parse":  func(w *mon.Worker) { runSpan(w, func(i int) { parseCase(w, i) }) },
+		"faulty":     func(w *mon.Worker) { runSpan(w, func(i int) { faultyCase(w, i) }) },
+		"concurrent": func(w *mon.Worker) { runSpan(w, func(i int) { concurrentCase(w, i) }) },
+		"parse":      func(w *mon.Worker) { runSpan(w, func(i int) { parseCase(w, i) }) },
 	}
 }
 
@@ -1342,6 +1485,7 @@ func main() {
 	split("limit", R.N(1, 4), 1)
 	split("over", R.N(1, 3), 1)
 	split("clean", R.N(20, 300), R.N(3, 12))
+	split("concurrent", R.N(6, 80), R.N(2, 8))
 	split("faulty", R.N(200, 10000), R.N(20, 100))
 	split("parse", R.N(3, 24), 1)
 	R.RunJobs(jobs, mon.ChildOpts{Parallel: 14, Timeout: 10 * time.Minute,
